@@ -202,6 +202,11 @@ pub struct Case {
     pub pre: Option<Box<Case>>,
 }
 
+unsafe extern "C" {
+    /// SWL2001 sx126x.c (compiled into the reference library; not part of the generated bindings)
+    fn sx126x_set_rx_duty_cycle_with_timings_in_rtc_step(context: *const core::ffi::c_void, rx_time_in_rtc_step: u32, sleep_time_in_rtc_step: u32) -> u32;
+}
+
 /// Datasheet Table 13-21 + one-for-one interpolation (independent of the driver's table).
 fn pa_row(hp: bool, stm: bool, dbm: i32) -> (u8, u8, i8) {
     if hp {
@@ -377,7 +382,31 @@ fn op126<RK: RadioKind>(r: &mut RK, refc: &mut c126::Context<Spi126>, c: &Case, 
             }
             refc.set_pa_cfg(&c126::sx126x_pa_cfg_params_t { pa_duty_cycle: duty, hp_max: hpmax, device_sel: if hp { 0 } else { 1 }, pa_lut: 0x01 });
             refc.set_tx_params(param, if p(1) != 0 { c126::sx126x_ramp_time_e::SX126X_RAMP_40_US } else { c126::sx126x_ramp_time_e::SX126X_RAMP_200_US });
-            { ok(drive(r.set_tx_power_and_ramp_time(p(0) as i32, None, p(1) != 0))) }
+            // p2: carrier frequency handed over with the modulation parameters (0 = none, as at init). Below
+            // 400 MHz the low-power PA must stay at paDutyCycle <= 0x04 (datasheet 13.1.14): +15 dBm is not a
+            // legal request there; every other request is, and is compared
+            let f = p(2) as u32;
+            if f == 0 {
+                ok(drive(r.set_tx_power_and_ramp_time(p(0) as i32, None, p(1) != 0)))
+            } else {
+                let legal = hp || f >= 400_000_000 || p(0) < 15;
+                let mp = r.create_modulation_params(SpreadingFactor::_7, Bandwidth::_125KHz, CodingRate::_4_5, f).map_err(|e| format!("{e:?}"))?;
+                match ok(drive(r.set_tx_power_and_ramp_time(p(0) as i32, Some(&mp), p(1) != 0))) {
+                    Err(e) if legal => Err(format!("REFUSED: {e}")),
+                    x => x,
+                }
+            }
+        }
+        "rxdc" => {
+            // RX duty cycle: p0 = rx period, p1 = sleep period (RTC steps, 24 bits each). The safe wrapper of the
+            // reference driver does not export the call; the C function itself is linked and called directly.
+            refc.stop_timer_on_preamble(true);
+            refc.set_lora_symb_nb_timeout(0);
+            refc.cfg_rx_boosted(true);
+            unsafe {
+                sx126x_set_rx_duty_cycle_with_timings_in_rtc_step(refc as *mut c126::Context<Spi126> as *const core::ffi::c_void, p(0) as u32, p(1) as u32);
+            }
+            { ok(drive(r.do_rx(RxMode::DutyCycle(lora_phy::mod_params::DutyCycleParams { rx_time: p(0) as u32, sleep_time: p(1) as u32 })))) }
         }
         "rdstatus" => {
             // status-type reads: packet status, instantaneous RSSI, IRQ status, wake-up GetStatus
@@ -441,6 +470,7 @@ fn eval126(c: &Case) -> Vec<(String, String)> {
     });
     match r {
         Err(p) => vec![(format!("C13|sx126x|{}|panic|{}", c.op, panic_site(&p)), p)],
+        Ok(Err(e)) if e.starts_with("REFUSED") => vec![(format!("C13|sx126x|{}|legal-request-refused", c.op), format!("{} {:?}: {e}; the reference driver issues {} transactions", c.chip, c.p, theirs.borrow().ops.len()))],
         Ok(Err(e)) => vec![("SKIP".into(), e)], // not applicable (the driver rejects the parameters)
         Ok(Ok(())) => {
             let a = &ours.borrow().ops;
@@ -886,6 +916,23 @@ fn main() {
                     }
                     cases.push(mk(chip, "power", vec![rq, ramp], pr));
                 }
+            }
+            // ... with a carrier frequency on either side of the 400 MHz limit of the low-power PA
+            for f in [169_400_000i64, 315_000_000, 399_999_999, 400_000_000, 433_175_000, 868_100_000, 915_000_000] {
+                cases.push(mk(chip, "power", vec![rq, 1, f], priors[0]));
+            }
+        }
+        // RX duty cycle: every byte of both periods takes every value at least once, and walking bits
+        let mut periods: Vec<i64> = vec![0, 1, 0xFF, 0x100, 0xFFFF, 0x1_0000, 0xFF_FFFF, 0x12_3456, 300_000, 200_000, 1_280, 128_000];
+        for i in 0..24 {
+            periods.push(1 << i);
+        }
+        for b in 0..=255i64 {
+            periods.push(b << 16 | (255 - b) << 8 | (b ^ 0x5A));
+        }
+        for &a in &periods {
+            for &b in if th { &periods[..] } else { &periods[..40] } {
+                cases.push(mk(chip, "rxdc", vec![a, b], 0));
             }
         }
     }
